@@ -2431,22 +2431,107 @@ func (c *Ctx) addressOfRule(rule string) {
 // foreignTypeRule (C01): a type of a package the setup file does not import is not rendered as if it were local.
 func (c *Ctx) foreignTypeRule(rule string) {
 	r := c.R
-	r.Rule(rule, "ImportNames.TypeName renders a named type without qualifier only if it belongs to the setup file's own package (or is predeclared / dot-imported): a type of a package the setup file does not import (time.Time reached through a field of an imported struct) is rendered as `Time` and the output does not compile")
-	fn := c.MustMethod(rule, "/pkg/util", "ImportNames", "TypeName")
-	if fn == nil {
-		return
-	}
-	// the table maps import paths to names only: it cannot tell "own package" from "not imported"
-	ownKnown := false
-	for _, b := range fn.Blocks {
-		for _, in := range b.Instrs {
-			if bo, ok := in.(*ssa.BinOp); ok {
-				x, y := c.O.Of(bo.X), c.O.Of(bo.Y)
-				if (x.IsCallTo("(*go/types.Package).Path") || y.IsCallTo("(*go/types.Package).Path")) && (x.Kind == "field" || y.Kind == "field" || x.Kind == "param" || y.Kind == "param") {
-					ownKnown = true
+	r.Rule(rule, "ImportNames.TypeName knows the import table only: `not in the table` covers the setup file's own package and every package the setup file does not import alike (time.Time reached through a field of an imported struct would be written `Time`). Type text that the builder puts into emitted statements therefore comes from a renderer that knows the package being generated – types.TypeString with a qualifier that answers \"\" only under ¬isExternalPkg(p) or for the table name \".\", the table name when the path is in the table, and p.Name() otherwise (the import optimizer resolves it, as for conversions) – and ImportNames.TypeName is called in pkg/builder only for diagnostics (logger arguments) and for the types written in the method's own signature (createVar)")
+	// own-package-aware renderers
+	renderers := map[string]bool{}
+	for _, fn := range c.P.Funcs() {
+		if p := pkgOf(fn); p == nil || p.Path() != mod+"/pkg/builder" {
+			continue
+		}
+		rets := core.Returns(fn)
+		if len(rets) != 1 || len(rets[0].Results) != 1 {
+			continue
+		}
+		t := c.O.Of(rets[0].Results[0])
+		if !t.IsCallTo("go/types.TypeString") || t.Args[0].Kind != "param" || t.Args[1].Kind != "closure" {
+			continue
+		}
+		for _, af := range fn.AnonFuncs {
+			if !strings.HasSuffix(t.Args[1].Name, af.Name()) || len(af.Params) != 1 {
+				continue
+			}
+			p := "param:" + af.Params[0].Name()
+			external := func(x *core.Term) bool { return x.IsCallTo(fnIsExternalPkg) && x.Args[1].String() == p }
+			lookup := func(x *core.Term) bool {
+				return x.Kind == "call" && strings.HasSuffix(x.Name, "ImportNames).LookupName") && x.Args[1].IsCallTo("(*go/types.Package).Path") && x.Args[1].Args[0].String() == p
+			}
+			found := func(x *core.Term) bool { return x.Kind == "extract" && x.Name == "1" && lookup(x.Args[0]) }
+			tableName := func(x *core.Term) bool { return x.Kind == "extract" && x.Name == "0" && lookup(x.Args[0]) }
+			ok := true
+			n := 0
+			for _, qr := range core.Returns(af) {
+				n++
+				qt := c.O.Of(qr.Results[0])
+				qd := c.ReachOf(qr)
+				switch {
+				case qt.Is("const", `""`):
+					ok = ok && qd.Implies(c.M(false, external), c.M(true, eqConst(tableName, `"."`)))
+				case tableName(qt):
+					ok = ok && qd.Implies(c.M(true, found)) && qd.Implies(c.M(false, eqConst(tableName, `"."`))) && qd.Implies(c.M(true, external))
+				case qt.IsCallTo("(*go/types.Package).Name") && qt.Args[0].String() == p:
+					ok = ok && qd.Implies(c.M(false, found)) && qd.Implies(c.M(true, external))
+				default:
+					ok = false
 				}
+			}
+			r.Check(rule, FnKey(af)+":qualifier", c.Pos(af.Pos()), ok && n >= 3, "the qualifier must answer \"\" only for the package being generated (¬isExternalPkg) or a dot import, the table name for an imported path, and the package's own name otherwise")
+			if ok && n >= 3 {
+				renderers[fn.String()] = true
 			}
 		}
 	}
-	r.Check(rule, FnKey(fn)+":own-package-known", c.Pos(fn.Pos()), ownKnown, "TypeName has no notion of the setup file's own package: `not in the import table` is taken for `local`")
+	r.Check(rule, "own-package-aware-renderer", "pkg/builder", len(renderers) > 0, "pkg/builder has no type renderer that knows the package being generated: type text in emitted statements comes from ImportNames.TypeName, for which `not in the import table` means `local` – a named type of a package the setup file does not import (slice elements `[]time.Time` of an imported struct) is rendered without qualifier (`make([]Time, …)`): exit 0, output does not compile")
+	// uses of the table-only renderer in the builder
+	n := 0
+	for _, s := range c.CallsTo("(" + pUtil + "ImportNames).TypeName") {
+		if p := pkgOf(s.Fn); p == nil || p.Path() != mod+"/pkg/builder" {
+			continue
+		}
+		n++
+		v, isV := s.Instr.(ssa.Value)
+		ok := strings.HasSuffix(FnKey(s.Fn), ".createVar") || (isV && feedsOnlyLogger(v, 0))
+		r.Check(rule, sprintf("%s:TypeName%d:diagnostics-or-signature", FnKey(s.Fn), n), c.Pos(s.Pos()), ok, "ImportNames.TypeName – which cannot tell the package being generated from a package that is not imported – feeds something other than a diagnostic or the method's own signature")
+	}
+	r.Floor(rule, "ImportNames.TypeName calls in the builder", n, 1)
+}
+
+// feedsOnlyLogger: every use of the value ends as an argument of a pkg/logger function.
+func feedsOnlyLogger(v ssa.Value, depth int) bool {
+	if depth > 6 || v.Referrers() == nil {
+		return false
+	}
+	uses := 0
+	for _, rf := range *v.Referrers() {
+		switch x := rf.(type) {
+		case *ssa.DebugRef:
+		case *ssa.MakeInterface:
+			uses++
+			if !feedsOnlyLogger(x, depth+1) {
+				return false
+			}
+		case *ssa.Store:
+			uses++
+			ia, ok := x.Addr.(*ssa.IndexAddr)
+			if !ok || x.Val != v {
+				return false
+			}
+			arr, ok := ia.X.(*ssa.Alloc)
+			if !ok || arr.Referrers() == nil {
+				return false
+			}
+			for _, ar := range *arr.Referrers() {
+				if sl, isSlice := ar.(*ssa.Slice); isSlice && !feedsOnlyLogger(sl, depth+1) {
+					return false
+				}
+			}
+		case *ssa.Call:
+			uses++
+			if !strings.HasPrefix(core.CalleeName(&x.Call), pLog) {
+				return false
+			}
+		default:
+			return false
+		}
+	}
+	return uses > 0
 }
